@@ -35,6 +35,7 @@ type demoSpec struct {
 	Tag  string `json:"tag"`  // regexp on the assertion tag
 	File string `json:"file"` // test file relative to /verif, overlaid into the package directory
 	Test string `json:"test"` // test function
+	Race bool   `json:"race,omitempty"` // run under the race detector; a reported race counts as reproduction
 }
 
 type checkSpec struct {
@@ -616,6 +617,10 @@ func vSameSlice(a, b []byte) bool {
 func vEventCount(sub string) int { fmt.Println("REPLAY-UNSUPPORTED vEventCount"); panic(vStop{}) }
 func vPrint(x any)               { fmt.Println("vPrint:", x) }
 func vSchedule()                 {}
+func vWatchFields(ptr any)       {}
+func vSetAccessHook(f func())    { fmt.Println("REPLAY-UNSUPPORTED interleaving hook"); panic(vStop{}) }
+func vClearAccessHook()          {}
+func vWatchedReads() int         { return 0 }
 func vHash(kind string, data []byte, n int) []byte {
 	switch kind {
 	case "sha256":
@@ -813,12 +818,20 @@ func nativeDemo(pkg string, d demoSpec, cf cexFile) replayResult {
 	mf := filepath.Join(tmp, "model.json")
 	mb, _ := json.Marshal(cf.Model)
 	os.WriteFile(mf, mb, 0o644)
-	cmd := exec.Command("go", "test", "-tags=verif", "-overlay="+ovf, "-modfile="+filepath.Join(tmp, "x.mod"),
-		"-run", "^"+d.Test+"$", "-count=1", "-v", "-vet=off", "-timeout", "120s", pkg)
+	argv := []string{"test", "-tags=verif", "-overlay=" + ovf, "-modfile=" + filepath.Join(tmp, "x.mod"),
+		"-run", "^" + d.Test + "$", "-count=1", "-v", "-vet=off", "-timeout", "180s"}
+	if d.Race {
+		argv = append(argv, "-race")
+	}
+	cmd := exec.Command("go", append(argv, pkg)...)
 	cmd.Dir = repo
 	cmd.Env = append(os.Environ(), "GOFLAGS=-mod=mod", "GOPROXY=off", "GOSUMDB=off", "GOTOOLCHAIN=local", "GOSMT_MODEL="+mf)
 	out, _ := cmd.CombinedOutput()
 	rr.output = string(out)
+	if d.Race && strings.Contains(rr.output, "WARNING: DATA RACE") {
+		rr.violated[cf.Tag] = true
+		return rr
+	}
 	if !strings.Contains(rr.output, "REPLAY-") {
 		rr.err = "no demo output: " + lastLines(rr.output, 8)
 		return rr
